@@ -29,6 +29,9 @@ type c08Case struct {
 	Runs     int         `json:"runs"`
 	Perms    int         `json:"perms"`
 	Labels   []string    `json:"labels,omitempty"`
+	// OutState: "" = the output path does not exist before a run; "directory", "missing-parent", "dev-full": the write
+	// fails - the diagnostic it produces is part of the report and has to be the same in every run
+	OutState string `json:"out_state,omitempty"`
 }
 
 func sha(b []byte) string { return fmt.Sprintf("%x", sha256.Sum256(b))[:16] }
@@ -76,6 +79,14 @@ func c08Eval(t tb, c c08Case) {
 		abs = append(abs, filepath.Join(dir, p))
 	}
 	out := filepath.Join(dir, "out.go")
+	switch c.OutState {
+	case "directory":
+		_ = os.MkdirAll(filepath.Join(out, "inner"), 0o755)
+	case "missing-parent":
+		out = filepath.Join(dir, "nope", "sub", "out.go")
+	case "dev-full":
+		_ = os.Symlink("/dev/full", out)
+	}
 	envs := envVariants(dir)
 	type obs struct {
 		exit         int
@@ -88,7 +99,9 @@ func c08Eval(t tb, c c08Case) {
 		runs = 2
 	}
 	for i := 0; i < runs; i++ {
-		_ = os.Remove(out)
+		if c.OutState == "" {
+			_ = os.Remove(out)
+		}
 		cwd := dir
 		if i%2 == 1 {
 			cwd = other
@@ -98,7 +111,10 @@ func c08Eval(t tb, c c08Case) {
 			violation(t, "crash-or-timeout", fmt.Sprintf("run %d: exit %d timedOut=%v %s", i, r.Exit, r.TimedOut, oneLine(r.Panic)), c)
 			return
 		}
-		fb, _ := os.ReadFile(out)
+		var fb []byte
+		if c.OutState == "" { // (reading /dev/full never ends)
+			fb, _ = os.ReadFile(out)
+		}
 		o := obs{r.Exit, sha([]byte(r.Stdout)), sha(fb)}
 		if i == 0 {
 			first, firstStdout = o, r.Stdout
@@ -268,6 +284,12 @@ func TestC08(t *testing.T) {
 		loadRegress(t, f, &c)
 		c08Eval(t, c)
 		col.Label("regress")
+	}
+	// the failure paths of the write: the diagnostic of a failed write is part of the report
+	for i, st := range []string{"directory", "missing-parent", "dev-full"} {
+		if ev.Mine(i + 5) {
+			c08Eval(t, c08Case{Files: []File{{Name: "gontainer.yaml", Content: "parameters: {a: 1}\nservices:\n  s: {constructor: fx/lib.NewObj, arguments: [\"%a%\"]}\n"}}, Runs: 6, OutState: st, Labels: []string{"output-state:" + st}})
+		}
 	}
 	for i, c := range multiDefectCases(runs) {
 		if ev.Mine(i) {
